@@ -1,9 +1,9 @@
 package main
 
 import (
-	"go/constant"
 	"fmt"
 	"go/ast"
+	"go/constant"
 	"go/token"
 	"go/types"
 	"sort"
@@ -95,6 +95,13 @@ func runC09(c *Ctx) {
 			}
 			if t.String() == "bool" && len(prm.Names) == 1 {
 				indentParam = info.Defs[prm.Names[0]]
+			}
+			// … or the mode is a predicate the entry points hand in; then the single-line entry point must hand in one
+			// that is constantly false
+			if sig, ok := t.Underlying().(*types.Signature); ok && len(prm.Names) == 1 && sig.Results().Len() == 1 && sig.Results().At(0).Type().String() == "bool" {
+				if alwaysFalseArgument(p, nodesWriter, info.Defs[prm.Names[0]]) {
+					indentParam = info.Defs[prm.Names[0]]
+				}
 			}
 			if strings.HasSuffix(t.String(), "[]"+pkgParser+".Node") || t.String() == "[]"+pkgParser+".Node" {
 				hasNodes = true
@@ -450,10 +457,73 @@ func blockEndsInReturn(b *ast.BlockStmt) bool {
 }
 
 // conjunctHas: v is a conjunct of the condition (cond = v && …).
+func paramObjs(info *types.Info, fd *ast.FuncDecl) []types.Object {
+	var out []types.Object
+	for _, prm := range fd.Type.Params.List {
+		for _, nm := range prm.Names {
+			out = append(out, info.Defs[nm])
+		}
+	}
+	return out
+}
+
+// alwaysFalseArgument: some call of fd in the package passes, for the parameter prm, a declared function (or literal)
+// whose body is `return false`.
+func alwaysFalseArgument(p *packages.Package, fd *ast.FuncDecl, prm types.Object) bool {
+	info := p.TypesInfo
+	idx := -1
+	for i, ob := range paramObjs(info, fd) {
+		if ob == prm {
+			idx = i
+		}
+	}
+	if idx < 0 {
+		return false
+	}
+	constFalse := func(body *ast.BlockStmt) bool {
+		if body == nil || len(body.List) != 1 {
+			return false
+		}
+		ret, ok := body.List[0].(*ast.ReturnStmt)
+		if !ok || len(ret.Results) != 1 {
+			return false
+		}
+		tv, ok := info.Types[ret.Results[0]]
+		return ok && tv.Value != nil && tv.Value.String() == "false"
+	}
+	found := false
+	for _, f := range allFuncDecls(p) {
+		ast.Inspect(f, func(n ast.Node) bool {
+			call, ok := n.(*ast.CallExpr)
+			if !ok || calleeOf(info, call) != info.Defs[fd.Name] || idx >= len(call.Args) {
+				return true
+			}
+			switch a := ast.Unparen(call.Args[idx]).(type) {
+			case *ast.FuncLit:
+				found = found || constFalse(a.Body)
+			case *ast.Ident:
+				if fn, ok := info.Uses[a].(*types.Func); ok {
+					if d := findFunc(p, "", fn.Name()); d != nil {
+						found = found || constFalse(d.Body)
+					}
+				}
+			}
+			return true
+		})
+	}
+	return found
+}
+
 func conjunctHas(info *types.Info, cond ast.Expr, v types.Object) bool {
 	cond = ast.Unparen(cond)
 	if id, ok := cond.(*ast.Ident); ok {
 		return info.ObjectOf(id) == v
+	}
+	// the mode as a predicate handed in by the caller: mode(…)
+	if call, ok := cond.(*ast.CallExpr); ok {
+		if id, ok := ast.Unparen(call.Fun).(*ast.Ident); ok {
+			return info.ObjectOf(id) == v
+		}
 	}
 	if be, ok := cond.(*ast.BinaryExpr); ok && be.Op == token.LAND {
 		return conjunctHas(info, be.X, v) || conjunctHas(info, be.Y, v)
